@@ -41,7 +41,7 @@ def run(ctx):
     root = common.scratch_dir('rules')
     sdir = common.scratch_dir('sess')
     for i in range(ctx.scale(8, 60)):
-        spec = C12.small_ruleset(rng, markov_pos=rng.choice([0, 1, 2, 3]), rich=i % 2 == 1)
+        spec = C12.small_ruleset(rng, markov_pos=rng.choice([0, 1, 2, 3]), rich=i % 3 == 1, wide=i % 3 == 2)
         d = common.write_ruleset(os.path.join(root, f"c15_{i % 5}"), spec)
         pcfg = common.load_grammar(d)
         units = ss.units_of(pcfg)
@@ -54,7 +54,7 @@ def run(ctx):
         mk = [k for k, u in enumerate(units) if u[0] == 'm' and u[2]]
         for ui in mk:
             n = len(units[ui][2])
-            js = sorted({0, n - 1, n // 2, rng.randrange(n)}) if ctx.quick else range(n)
+            js = sorted({0, n - 1, n // 2, rng.randrange(n)} | ({rng.randrange(n) for _ in range(8)} if i % 3 == 2 else set())) if ctx.quick else range(n)
             for j in js:
                 # session names of every shape (the .omn file name is derived from the .sav name)
                 sf = os.path.join(sdir, f"c15_{i}_{ui}_{j}{rng.choice(['', '', '_canvas', '_hashes', '_v', '.a', '_x.sav'])}.sav")
